@@ -106,7 +106,40 @@ func VerifC17HTTP() {
 		tok := verifapi.Int64(fmt.Sprint("token", i))
 		var got int64
 		before, faults := len(svc.seen), rt.faults
-		err := client.Call(context.Background(), &got, "echo", tok)
+		var err error
+		bad := 0
+		if verifapi.Param("badcalls", 0) == 1 {
+			bad = verifapi.Choose(fmt.Sprint("badcall", i), 5)
+		}
+		switch bad {
+		case 0:
+			err = client.Call(context.Background(), &got, "echo", tok)
+		case 1: // a name that differs from the registered one only in case
+			err = client.Call(context.Background(), &got, "Echo", tok)
+		case 2: // too few parameters
+			err = client.Call(context.Background(), &got, "echo")
+		case 3: // too many parameters
+			err = client.Call(context.Background(), &got, "echo", tok, tok)
+		case 4: // a wrongly typed parameter
+			err = client.Call(context.Background(), &got, "echo", "text")
+		}
+		if bad != 0 {
+			// C16 over HTTP: not served, and answered with an error (unless the transport failed first)
+			verifapi.Assert(len(svc.seen) == before, "c16.http.bad-call-does-not-run-the-method")
+			verifapi.Assert(err != nil, "c16.http.bad-call-is-an-error")
+			if rt.faults == faults {
+				code := 0
+				if e, ok := err.(interface{ ErrorCode() int }); ok {
+					code = e.ErrorCode()
+				}
+				if bad == 1 {
+					verifapi.Assert(code == ErrCodeMethodNotFound, "c16.http.unknown-name-is-method-not-found")
+				} else {
+					verifapi.Assert(code == ErrCodeInvalidParams, "c16.http.wrong-params-is-invalid-params")
+				}
+			}
+			continue
+		}
 		ran := len(svc.seen) - before
 		verifapi.Assert(ran <= 1, "c17.http-message-handled-at-most-once")
 		if err == nil {
